@@ -230,8 +230,18 @@ class ConvexSpheropolygon(Shape2D):
         angle_ranges[:, 1] = np.arctan2(pt3[:, 1], pt3[:, 0])
         angle_ranges[angle_ranges < 0] += 2 * np.pi
 
-        # compute shape kernel for the new set of vertices
-        kernel = ConvexPolygon(new_verts).distance_to_surface(angles)
+        # compute shape kernel for the new set of vertices: distance from the
+        # centroid of the core polygon (the origin here, which in general is not
+        # the centroid of the expanded polygon). The ray leaves the convex
+        # expanded polygon through the nearest of its supporting lines.
+        edges = np.roll(new_verts, -1, axis=0) - new_verts
+        normals = np.column_stack((edges[:, 1], -edges[:, 0]))
+        offsets = np.einsum("ij,ij->i", normals, new_verts)
+        normals *= np.sign(offsets)[:, None]
+        directions = np.column_stack((np.cos(angles), np.sin(angles)))
+        with np.errstate(divide="ignore"):
+            ray_lengths = np.abs(offsets) / np.dot(directions, normals.T)
+        kernel = np.min(np.where(ray_lengths > 0, ray_lengths, np.inf), axis=1)
 
         # get the shape kernel for this shape by adjusting indices of shape kernel
         # for the new vertices
